@@ -31,6 +31,8 @@ package ecs
 //@   ensures  count: (result ==> len(t.tables) == old(len(t.tables)) - 1) && (!result ==> len(t.tables) == old(len(t.tables)))
 //@   ensures  samearray: len(t.tables) > 0 ==> __same(&t.tables[0], old(&t.tables[0]))
 //@   ensures  samemap: __same(t.indices, old(t.indices))
+//@   ensures  absent: !tidsHas(t, id)
+//@   ensures  mono: forall u *tableIDs, x tableID :: tidsHas(u, x) ==> old(tidsHas(u, x))
 //@   modifies t.tables, t.tables[*], t.indices[*]
 
 //@ func (*tableIDs).Clear
